@@ -17,11 +17,25 @@ pub struct Case {
   /// Some(n): a stateful discriminator (group_by takes an FnMut): the key of
   /// the i-th item handed to it is i / n, whatever the item is
   pub chunk: Option<i64>,
+  /// the key type's `Hash` is coarser than its `Eq` (legal): keys collide in the hash
+  pub coarse: bool,
+  /// a second subscriber joins each group ahead of the probe and leaves at once (closed entry in front)
+  pub bystander: bool,
+}
+
+/// key whose hash only looks at the lowest bit
+#[derive(Clone, Debug, PartialEq, Eq)]
+pub struct CK(pub i64);
+impl std::hash::Hash for CK {
+  fn hash<H: std::hash::Hasher>(&self, h: &mut H) {
+    (self.0 & 1).hash(h)
+  }
 }
 
 /// outer observer: logs the announcement, then subscribes a probe to the group
 struct Outer<S> {
   log: Log,
+  bystander: bool,
   _s: std::marker::PhantomData<S>,
 }
 
@@ -31,6 +45,9 @@ macro_rules! impl_outer {
       fn next(&mut self, g: KeyObservable<i64, $subj>) {
         let key = g.key;
         self.log.mark(1, "group", key);
+        if self.bystander {
+          g.clone().actual_subscribe(Probe::new(300 + key as u32, &self.log)).unsubscribe();
+        }
         // attached as the group is announced, so it sees the group's first item
         g.actual_subscribe(Probe::new(100 + key as u32, &self.log));
       }
@@ -49,11 +66,39 @@ macro_rules! impl_outer {
 impl_outer!(Subject<'static, V, E>);
 impl_outer!(SubjectThreads<V, E>);
 
+macro_rules! impl_outer_ck {
+  ($subj:ty) => {
+    impl Observer<KeyObservable<CK, $subj>, E> for Outer<$subj> {
+      fn next(&mut self, g: KeyObservable<CK, $subj>) {
+        let key = g.key.0;
+        self.log.mark(1, "group", key);
+        if self.bystander {
+          g.clone().actual_subscribe(Probe::new(300 + key as u32, &self.log)).unsubscribe();
+        }
+        g.actual_subscribe(Probe::new(100 + key as u32, &self.log));
+      }
+      fn error(self, e: E) {
+        self.log.push(1, K::N(N::Err(e)));
+      }
+      fn complete(self) {
+        self.log.push(1, K::N(N::Complete));
+      }
+      fn is_finished(&self) -> bool {
+        false
+      }
+    }
+  };
+}
+impl_outer_ck!(Subject<'static, V, E>);
+impl_outer_ck!(SubjectThreads<V, E>);
+
 pub fn observe(c: &Case) -> Result<Vec<Ev>, String> {
   catch(|| {
     let log = Log::new();
     let key = c.key.clone();
     let chunk = c.chunk;
+    let bystander = c.bystander;
+    let coarse = c.coarse;
     let script = c.script.clone();
     macro_rules! go {
       ($subj:ty) => {{
@@ -78,7 +123,29 @@ pub fn observe(c: &Case) -> Result<Vec<Ev>, String> {
               }
             }
           })
-          .actual_subscribe(Outer::<$subj> { log: log.clone(), _s: Default::default() });
+          .actual_subscribe(Outer::<$subj> { log: log.clone(), bystander, _s: Default::default() });
+        } else if coarse {
+          let mut src = Subject::<'static, V, E>::default();
+          src
+            .clone()
+            .group_by::<_, CK, $subj>({
+              let mut calls = 0i64;
+              move |v: &V| {
+                calls += 1;
+                CK(match chunk {
+                  Some(n) => (calls - 1) / n,
+                  None => key.eval(v),
+                })
+              }
+            })
+            .actual_subscribe(Outer::<$subj> { log: log.clone(), bystander, _s: Default::default() });
+          for n in script.clone() {
+            match n {
+              N::Next(v) => src.next(v),
+              N::Err(e) => src.clone().error(e),
+              N::Complete => src.clone().complete(),
+            }
+          }
         } else {
           let mut src = Subject::<'static, V, E>::default();
           src
@@ -93,7 +160,7 @@ pub fn observe(c: &Case) -> Result<Vec<Ev>, String> {
                 }
               }
             })
-            .actual_subscribe(Outer::<$subj> { log: log.clone(), _s: Default::default() });
+            .actual_subscribe(Outer::<$subj> { log: log.clone(), bystander, _s: Default::default() });
           for n in script {
             match n {
               N::Next(v) => src.next(v),
@@ -160,7 +227,7 @@ pub fn judge(c: &Case, o: &Result<Vec<Ev>, String>) -> Option<(String, serde_jso
   }
   // no group probe for an unknown key
   for e in evs {
-    if e.id >= 100 && !keys.contains(&((e.id - 100) as i64)) {
+    if e.id >= 100 && e.id < 300 && !keys.contains(&((e.id - 100) as i64)) {
       return Some(("item_to_wrong_group".into(), show(format!("observer of key {} received {:?}", e.id - 100, e.k))));
     }
   }
@@ -208,7 +275,13 @@ fn check(cfg: &Cfg, rep: &mut Report, id: &str, c: &Case) {
   if c.chunk.is_some() {
     rep.count("cases_with_a_stateful_discriminator", 1);
   }
-  let res = judge(c, &o).or_else(|| if !c.cold && c.chunk.is_none() { flatten_check(c) } else { None });
+  if c.coarse && !c.cold {
+    rep.count("cases_with_colliding_key_hashes", 1);
+  }
+  if c.bystander {
+    rep.count("cases_with_a_closed_subscriber_ahead_in_each_group", 1);
+  }
+  let res = judge(c, &o).or_else(|| if !c.cold && c.chunk.is_none() && !c.coarse && !c.bystander { flatten_check(c) } else { None });
   if let Some((kind, detail)) = res {
     rep.violation(&kind, if c.threads_subject { "group_by[SubjectThreads]" } else { "group_by[Subject]" }, id, json!({"case": format!("{:?}", c), "result": detail}));
   } else if let Ok(evs) = &o {
@@ -236,11 +309,11 @@ pub fn run(cfg: &Cfg, rep: &mut Report) {
           if cold && idx % 4 != 0 {
             continue;
           }
-          check(cfg, rep, &format!("enum:{}", idx), &Case { key: key.clone(), script: s.clone(), threads_subject, cold, chunk: None });
+          check(cfg, rep, &format!("enum:{}", idx), &Case { key: key.clone(), script: s.clone(), threads_subject, cold, chunk: None, coarse: false, bystander: false });
           if *key == KeyF::Const {
             // the same scripts with the stateful discriminators in place of the constant one
             for n in [1i64, 2, 3] {
-              check(cfg, rep, &format!("enum:{}:chunk{}", idx, n), &Case { key: key.clone(), script: s.clone(), threads_subject, cold, chunk: Some(n) });
+              check(cfg, rep, &format!("enum:{}:chunk{}", idx, n), &Case { key: key.clone(), script: s.clone(), threads_subject, cold, chunk: Some(n), coarse: !cold && idx % 2 == 0, bystander: idx % 3 == 0 });
             }
           }
         }
@@ -261,6 +334,8 @@ pub fn run(cfg: &Cfg, rep: &mut Report) {
       threads_subject: r.chance(1, 2),
       cold: r.chance(1, 4),
       chunk: if r.chance(1, 5) { Some(1 + r.below(3) as i64) } else { None },
+      coarse: r.chance(1, 3),
+      bystander: r.chance(1, 3),
     };
     check(cfg, rep, &format!("rand:{}", i), &c);
   }
